@@ -347,7 +347,7 @@ func m4Offsets(b *strings.Builder, es []*gpmf.Element) {
 }
 
 func m4Decode(rs io.ReadSeeker) string {
-	wait := 10 * time.Second
+	wait := 30 * time.Second
 	if _, sparse := rs.(*sparseFile); sparse {
 		// the library reads the whole media data box, hole included, into memory: gigabytes
 		wait = 5 * time.Minute
